@@ -9,6 +9,9 @@
 (*             ToOld on the raw input                                      *)
 (*   func    : Encode (PythonTask / pythontask), Decode (get_func_attr),   *)
 (*             Call                                                        *)
+(*   fseq    : EncodeSeq (several short-lived callables encoded one after  *)
+(*             the other, each dropped before the next is made), DecodeSeq,*)
+(*             CallSeq                                                     *)
 (* Each event carries what the real call produced (descriptions: the       *)
 (* attributes that changed, relative to the value before the call); the    *)
 (* monitor recomputes the step with the operators of DescrOps and adds     *)
@@ -123,6 +126,17 @@ SlotCov(ss) == {"K.slots.c." \o ss[i].cfmt \o NewOld(ss[i]) : i \in {j \in 1 .. 
           \cup {"K.slots.g." \o ss[i].gfmt \o NewOld(ss[i]) : i \in {j \in 1 .. Len(ss) : ss[j].gpus # <<>>}}
           \cup {"K.slots.box." \o ss[i].box : i \in 1 .. Len(ss)}
           \cup {"K.slots.len." \o ToString(Len(ss))}
+          \cup (IF \E i, j \in 1 .. Len(ss) : IsNew(ss[i]) /\ ~IsNew(ss[j])
+                THEN {"K.slots.mixed." \o (IF IsNew(ss[1]) THEN "newfirst" ELSE "oldfirst"),
+                      "K.slots.mixed.len." \o ToString(Len(ss))}
+                ELSE {})
+
+\* per slot verdicts: which entries of a converted list are wrong
+BadSlots(as, bs, P(_, _)) ==
+  IF Len(as) # Len(bs) THEN {"I.slot.length"}
+  ELSE {"I.slot." \o ToString(i) : i \in {j \in 1 .. Len(as) : ~P(as[j], bs[j])}}
+NewOK(a, b) == IsNew(b)
+OldOK(a, b) == ~IsNew(b)
 
 SlotStep(e) ==
   CASE e.ev = "Build" ->
@@ -136,6 +150,10 @@ SlotStep(e) ==
          /\ cur' = e.out /\ orig' = orig
          /\ errs' = errs \cup {"K.slots.tonew"}
               \cup E(e.res = "ok" /\ SlotsKeepOp(cur, e.out), "C19.SlotsKeepNew")
+              \cup (IF e.res = "ok" THEN BadSlots(cur, e.out, SlotKeeps) ELSE {"I.slot.raise"})
+              \cup (IF e.res = "ok" /\ Len(cur) = Len(e.out)
+                    THEN E(AllNew(e.out), "C19.SlotsConvertedNew") \cup BadSlots(cur, e.out, NewOK)
+                    ELSE {})
               \cup (IF e.res = "ok" /\ SlotsKeepOp(cur, e.out)
                     THEN E(NormS(e.out) = NormS(ToNew(cur)), "T19.ToNewDiffers") ELSE {})
     [] e.ev = "ToOld" ->
@@ -145,6 +163,10 @@ SlotStep(e) ==
          /\ cur' = cur /\ orig' = orig
          /\ errs' = errs \cup {"K.slots.toold." \o e.on}
               \cup E(ok, "C19.SlotsKeepOld")
+              \cup (IF e.res = "ok" THEN BadSlots(src, e.out, SlotKeeps) ELSE {"I.slot.raise"})
+              \cup (IF e.res = "ok" /\ Len(src) = Len(e.out)
+                    THEN E(AllOld(e.out), "C19.SlotsConvertedOld") \cup BadSlots(src, e.out, OldOK)
+                    ELSE {})
               \cup E(e.res = "ok" /\ SlotsKeepOp(orig, e.out),
                      IF e.on = "new" THEN "C19.SlotsKeepNewOld" ELSE "C19.SlotsKeepOld")
               \cup (IF ok THEN E(NormS(e.out) = NormS(ToOld(src)), "T19.ToOldDiffers") ELSE {})
@@ -170,6 +192,24 @@ FuncStep(e) ==
                     \cup E(e.dispatch = e.direct, "C19.FuncDispatchSameResult")
        [] OTHER -> errs' = errs \cup {"X.UnknownEvent"}
 
+FSeqStep(e) ==
+  /\ UNCHANGED <<cur, orig, vok>>
+  /\ CASE e.ev = "EncodeSeq" ->
+            errs' = errs \cup {"K.fseq." \o cur.api \o ".len." \o ToString(Len(cur.fs))}
+                    \cup {"K.fseq.f." \o cur.fs[i] : i \in 1 .. Len(cur.fs)}
+                    \cup E(e.res = "ok" /\ e.isstr, "C19.FuncEncodes")
+       [] e.ev = "DecodeSeq" ->
+            errs' = errs \cup E(e.res = "ok" /\ e.callable /\ e.args_same, "C19.FuncDecodes")
+       [] e.ev = "CallSeq" ->
+            \* the model: DecodeSeq(EncodeSeq(c)) = SeqOracle(c), entry by entry
+            errs' = errs
+                    \cup E(Len(e.decoded) = Len(cur.fs) /\ Len(e.direct) = Len(cur.fs)
+                           /\ \A i \in 1 .. Len(cur.fs) : e.decoded[i] = e.direct[i],
+                           "C19.FuncSameResult")
+                    \cup {"I.fseq." \o ToString(i) : i \in {j \in 1 .. Len(cur.fs) :
+                             j <= Len(e.decoded) /\ j <= Len(e.direct) /\ e.decoded[j] # e.direct[j]}}
+       [] OTHER -> errs' = errs \cup {"X.UnknownEvent"}
+
 Step ==
   /\ ~fin /\ l <= Len(Ev)
   /\ l' = l + 1 /\ fin' = FALSE /\ UNCHANGED tid
@@ -178,6 +218,7 @@ Step ==
        [] Tr.kind = "pd"    -> PDStep(e) /\ UNCHANGED orig
        [] Tr.kind = "slots" -> SlotStep(e) /\ UNCHANGED vok
        [] Tr.kind = "func"  -> FuncStep(e)
+       [] Tr.kind = "fseq"  -> FSeqStep(e)
        [] OTHER -> errs' = errs \cup {"X.UnknownKind"} /\ UNCHANGED <<cur, orig, vok>>
 
 Finish ==
